@@ -21,7 +21,9 @@
 (*   val claim : the node's table is the claimed constant wherever defined *)
 (*   deg claim : hi <= 2  =>  poly /\ total degree of the table <= hi      *)
 (* Operator semantics: Field.tla.  Locals declared without initialiser are *)
-(* 0, as in Circom.                                                        *)
+(* 0, as in Circom.  Local arrays hold one value per element; an element  *)
+(* read or write needs an index that is constant over the signal          *)
+(* valuations.                                                             *)
 (***************************************************************************)
 EXTENDS Field, FiniteSets, IOUtils
 
@@ -58,6 +60,11 @@ Eval(e, en) ==
     [] nd.k = "var" -> IF nd.x \in DOMAIN en THEN en[nd.x] ELSE MkVal(ConstT(Err), FALSE)
     [] nd.k = "sig" -> MkVal([i \in Pts |-> Coord(i, nd.v)], TRUE)           \* an indeterminate
     [] nd.k = "opaque" -> MkVal(ConstT(Err), FALSE)                          \* calls etc.: not interpreted
+    [] nd.k = "idx" ->          \* element of a local array: the index must be the same constant for every signal valuation
+         LET ix == Eval(nd.l, en) IN
+         IF nd.x \notin DOMAIN en \/ ~IsConstT(ix.t) \/ ix.t[1] = Err THEN MkVal(ConstT(Err), FALSE)
+         ELSE IF ix.t[1] + 1 \notin DOMAIN en[nd.x].elems THEN MkVal(ConstT(Err), FALSE)
+         ELSE en[nd.x].elems[ix.t[1] + 1]
     [] nd.k = "bin" ->
          LET a == Eval(nd.l, en)
              b == Eval(nd.r, en)
@@ -124,6 +131,14 @@ Step == /\ l <= Len(Rec) /\ started /\ bad = "" /\ stack # <<>>
                 /\ CASE st.k = "blk" -> stack' = Push(rest, st.kids) /\ UNCHANGED env
                      [] st.k = "decl0" -> stack' = rest /\ env' = (st.x :> MkVal(ConstT(0), TRUE)) @@ env
                      [] st.k = "set" -> stack' = rest /\ env' = (st.x :> Eval(st.e, env)) @@ env
+                     [] st.k = "decla" ->       \* var a[n]: all elements zero
+                          stack' = rest /\ env' = (st.x :> [elems |-> [j \in 1..st.t |-> MkVal(ConstT(0), TRUE)]]) @@ env
+                     [] st.k = "seti" ->        \* a[i] = e  (st.e2 = index expression)
+                          LET ix == Eval(st.e2, env) IN
+                          IF st.x \notin DOMAIN env \/ ~IsConstT(ix.t) \/ ix.t[1] = Err \/ ix.t[1] + 1 \notin DOMAIN env[st.x].elems
+                          THEN stack' = <<>> /\ UNCHANGED env           \* out-of-range or signal-dependent index: run abandoned
+                          ELSE /\ stack' = rest
+                               /\ env' = (st.x :> [elems |-> [env[st.x].elems EXCEPT ![ix.t[1] + 1] = Eval(st.e, env)]]) @@ env
                      [] st.k = "if" ->
                           LET c == Eval(st.e, env) IN
                           IF ~Defined(c.t) \/ ~IsConstT(c.t) THEN stack' = <<>> /\ UNCHANGED env     \* undefined or out of fragment
